@@ -405,6 +405,8 @@ def check_sites(exprs_: List[str]) -> Tuple[List[Tuple[str, str]], int]:
         else:
             src_tree = ast.parse(src_text, mode='eval').body
         why = exprnorm.same(src_tree, shown.replace(WRAP + '\n', ''))
+        if why and shown.rstrip().endswith('...') and not exprs.valid(shown.replace(WRAP + '\n', '')):
+            return  # cut to the configured length and marked with the ellipsis: allowed
         if why:
             out.append(('site:' + site, 'expression %s at site %s is displayed as %r: %s' % (trunc(exprs_[i], 200), site, trunc(shown, 300), why)))
     for i, e in enumerate(exprs_):
@@ -424,12 +426,18 @@ def check_sites(exprs_: List[str]) -> Tuple[List[Tuple[str, str]], int]:
             if ue is not None:
                 fa = s.allobjects['m.fa_%d' % i]
                 sig = _flat_text(pages.format_signature(fa))
-                fdef = ast.parse('def f%s: pass' % sig).body[0]
-                if exprnorm.norm_dump(fdef.args.args[0].annotation) != exprnorm.norm_dump(ue):
-                    out.append(('site:annotation-param', 'annotation %s is displayed as %r' % (trunc(e, 200), sig)))
-                if not (isinstance(ue, ast.Constant) and ue.value is None) and exprnorm.norm_dump(fdef.returns) != exprnorm.norm_dump(ue):
-                    out.append(('site:annotation-return', 'return annotation %s is displayed as %r' % (trunc(e, 200), sig)))
-                n += 2
+                try:
+                    fdef = ast.parse('def f%s: pass' % sig).body[0]
+                except SyntaxError:
+                    if '...' not in sig:
+                        raise
+                    fdef = None  # cut to the length limit and marked with the ellipsis: allowed
+                if fdef is not None:
+                    if exprnorm.norm_dump(fdef.args.args[0].annotation) != exprnorm.norm_dump(ue):
+                        out.append(('site:annotation-param', 'annotation %s is displayed as %r' % (trunc(e, 200), sig)))
+                    if not (isinstance(ue, ast.Constant) and ue.value is None) and exprnorm.norm_dump(fdef.returns) != exprnorm.norm_dump(ue):
+                        out.append(('site:annotation-return', 'return annotation %s is displayed as %r' % (trunc(e, 200), sig)))
+                    n += 2
             va = s.allobjects['m.va_%d' % i]
             t = epydoc2stan.type2stan(va)
             cmp('annotation-var', e, _flat_text(t), i)
